@@ -35,6 +35,8 @@ func (c *listCtx) fn(rel, name string) (*ssa.Function, string) {
 func (c *listCtx) verdict(rule, fname, construct string, fn *ssa.Function, it *Interp, ok bool, msg string) {
 	if len(it.Unsup) > 0 && ok {
 		ok, msg = false, "undecided: "+strings.Join(it.Unsup, "; ")
+	} else if len(it.Unsup) > 0 {
+		msg += " (undecided: " + strings.Join(it.Unsup, "; ") + ")"
 	}
 	if !ok {
 		c.r.Fail(rule, fname, construct, fn.Pos(), msg, nil)
